@@ -90,6 +90,17 @@ func RelayStepCheck(rules []string) func(m *PktModel, w *world.World, ev *StepEv
 				}
 			}
 		}
+		if ev.Kind == "recv" && !ok && p.RelayChain == at.Name {
+			// the honest relayer delivered a packet the source committed: the relay chain either forwards it or answers
+			// with an error acknowledgement; refusing the message leaves the packet (and what the sender locked) stuck
+			why := "allowed"
+			if !ruleAllows(rules, p.SourceChain, p.DestinationChain, p.Port) {
+				why = "no-rule"
+			} else if w.Idx(p.DestinationChain) < 0 {
+				why = "destination-unknown"
+			}
+			add("relay-chain-refuses-committed-packet:"+why, fmt.Sprintf("%s: %v %s", id, ev.Err, ev.Res.Log))
+		}
 		if ev.Kind == "ack" && !ok && p.SourceChain == at.Name && p.RelayChain != "" {
 			add("ack-from-relay-chain-refused-by-source", fmt.Sprintf("%s: %v %s", id, ev.Err, ev.Res.Log))
 		}
@@ -217,7 +228,9 @@ func modelsC11(tier string) ([]*PktModel, []int) {
 				}
 			}
 			return out
-		}, MockSendActions([]MockSend{{Label: "mockViaB", Src: A, Dst: C, Relay: B, Data: "m", Max: 1}}))
+		}, MockSendActions([]MockSend{{Label: "mockViaB", Src: A, Dst: C, Relay: B, Data: "m", Max: 1},
+			// a destination the relay chain has no client for
+			{Label: "mockToUnknownViaB", Src: A, Dst: "zchainzzz", Relay: B, Data: "u", Max: 1}}))
 		m.StepCheck = Steps(CoreStepCheck, NftStep, RelayStepCheck(rules))
 		models = append(models, m)
 		depth = append(depth, d)
